@@ -75,7 +75,7 @@ CLAIMED = {
    "Lean 4 accounting invariants + memory/allocation measurement"),
 }
 
-REGISTERED = ["C04", "C05", "C06", "C07", "C08", "C09", "C13", "C14", "C15", "C16", "C17", "C18", "C19", "C20"]
+REGISTERED = ["C%02d" % i for i in range(1, 21)]
 
 checks = []
 for pid in ids:
